@@ -329,7 +329,12 @@ func (h *Handler) handleDidSave(params json.RawMessage) {
 	}
 
 	if content != "" {
-		h.validateDocument(p.TextDocument.URI, content, 0)
+		// the diagnostics are those of the document as the server knows it: say which version
+		version := 0
+		if doc, ok := h.server.Documents().Get(p.TextDocument.URI); ok {
+			version = doc.Version
+		}
+		h.validateDocument(p.TextDocument.URI, content, version)
 	}
 }
 
